@@ -19,7 +19,8 @@ from ..tvgen import GenCfg, P, erase, to_json
 RULE = (
     "every (class, attribute) whose flattened metamodel type is directly integer/uinteger (structures, plus "
     "ResponseError.code) x the boundary set {min-1,min,min+1,-1,0,1,max-1,max,max+1,+-2^32,+-2^63} exhaustively and "
-    "random ints, each inside a generated valid surrounding object, through the constructor and through the converter; "
+    "random ints, each inside a generated valid surrounding object, through the constructor and through the converter "
+    "(constructor also with the number wrapped in an int subclass or given as a member of the package's integer enumerations); "
     "oracle: accepted <=> in range, same verdict at both entry points. The two validator functions are also driven "
     "with arbitrary Python values/instances/attributes: return True or raise ValueError naming class and attribute; "
     "for ints the verdict equals the range predicate. non-trivial = out-of-range or boundary int, or non-int value; "
@@ -27,6 +28,22 @@ RULE = (
 )
 
 RANGES = {"integer": (INT_MIN, INT_MAX), "uinteger": (UINT_MIN, UINT_MAX)}
+
+
+class LineNumber(int):
+    """an int subclass as user code has them (NewType-like wrappers, IntEnum members, numpy-style ints)"""
+
+
+def int_enum_members(sub) -> List[Any]:
+    """members of the package's own integer enumerations: ints that callers pass where an integer is declared
+    (ResponseError(code=ErrorCodes.MethodNotFound, ...))."""
+    import enum
+    out = []
+    for name in sub.model.enums:
+        cls = getattr(sub.types, name, None)
+        if isinstance(cls, type) and issubclass(cls, enum.Enum) and issubclass(cls, int):
+            out.extend(list(cls))
+    return out
 
 
 def boundary(lo: int, hi: int) -> List[int]:
@@ -50,7 +67,9 @@ def _work(args) -> dict:
     items, seed, k, n_rand = args
     sub = valuecheck.subject()
     ctx = Ctx("C12", "quick", seed)
-    res: Dict[str, Any] = {"evaluations": 0, "distinct": set(), "samples": [], "accepted": 0, "rejected": 0}
+    res: Dict[str, Any] = {"evaluations": 0, "distinct": set(), "samples": [], "accepted": 0, "rejected": 0, "int_subclass_probes": 0}
+    members = int_enum_members(sub)
+    member_values = sorted({m.value for m in members})
     for key, p in items:
         cls = sub.class_for(key)
         cname = cls.__name__
@@ -92,13 +111,27 @@ def _work(args) -> dict:
                 ctx.finding(("wrong-verdict", ploc, "converter"), f"structure({{'{p['name']}': {v}}}, {cname}) {'accepted' if p_ok else 'rejected'}; {base} range is [{lo},{hi}]", case)
             if c_ok != p_ok:
                 ctx.finding(("verdicts-differ", ploc, "-"), f"{cname}.{attr}={v}: constructor {c_ok}, converter {p_ok}", case)
+            # the same number as an instance of an int subclass (constructor path only: JSON has plain ints)
+            for w in [LineNumber(v)] + [m for m in members if m.value == v][:2]:
+                res["evaluations"] += 1
+                res["int_subclass_probes"] += 1
+                kwargs[attr] = w
+                try:
+                    cls(**kwargs)
+                    w_ok = True
+                except Exception:
+                    w_ok = False
+                if w_ok != expect:
+                    ctx.finding(("wrong-verdict", ploc, "constructor-int-subclass"),
+                                f"{cname}({attr}={w!r}) {'accepted' if w_ok else 'rejected'}; {base} range is [{lo},{hi}]",
+                                {**case, "wrapped_as": type(w).__name__})
 
         strat = tvgen.value_strategy(sub.objects, key, GenCfg(route=[ploc], decimal_ints=False))
         bset = boundary(lo, hi)
 
         def one(x):
             tv, _ = x
-            for v in bset:
+            for v in bset + member_values[:: max(1, len(member_values) // 6)]:
                 probe(tv, v)
 
         mini(strat, k, (seed, "C12", cname, attr, "b"), one)
@@ -138,6 +171,7 @@ def validators_alone(ctx: Ctx, sub, n: int) -> Dict[str, int]:
         st.lists(st.integers(), max_size=2), st.dictionaries(st.text(max_size=2), st.integers(), max_size=2),
         st.fractions(), st.decimals(allow_nan=True), st.complex_numbers(allow_nan=False),
         st.sampled_from([2.0, 0.0, 1e10, object, int]),
+        st.integers().map(LineNumber), st.integers(-3, 3).map(LineNumber), st.sampled_from(int_enum_members(sub) or [LineNumber(1)]),
         # containers and other shapes an error message has to cope with
         st.lists(st.integers(), max_size=3).map(tuple), st.sampled_from([(), (1,), (1, 2), ((),), ("%s",), ("a", "b", "c")]),
         st.frozensets(st.integers(), max_size=2), st.sets(st.text(max_size=2), max_size=2), st.binary(max_size=3).map(bytearray),
@@ -190,6 +224,7 @@ def run(ctx: Ctx) -> None:
     distinct = set()
     samples = []
     acc = rej = 0
+    subclass_probes = sum(r["int_subclass_probes"] for r in results)
     for r in results:
         evaluations += r["evaluations"]
         distinct |= r["distinct"]
@@ -202,7 +237,7 @@ def run(ctx: Ctx) -> None:
     samples.append({"validator_calls": vstats})
     ctx.coverage.update({
         "evaluations": evaluations, "distinct_nontrivial": len(distinct), "rule": RULE, "samples": samples[:6],
-        "integer_typed_attributes": len(tg), "in_range_probes": acc, "out_of_range_probes": rej,
+        "integer_typed_attributes": len(tg), "in_range_probes": acc, "out_of_range_probes": rej, "int_subclass_probes": subclass_probes,
         "validator_function_calls": vstats, "exhaustive": False,
         "note": "the attribute x boundary-set dimension is enumerated completely; surroundings and extra ints are sampled",
     })
